@@ -3,7 +3,9 @@ C08 Accumulated patches are delivered completely, atomically and exactly once.
 
 Subject: patching.patch_obj (split body/status merge-patches, JSON-patch = [test resourceVersion] + ops
 computed on the freshest body, 422 -> remaining patch, 404 -> silence), patches.Patch.as_json_patch,
-and the carry-over loop (a remaining patch re-evaluated against a fresh body until nothing remains).
+and the carry-over loop (a remaining patch re-evaluated against a fresh body until nothing remains);
+plus the framework's own carry-over (processing: memory.remaining_patch) in the closed loop, where label
+toggles and a deletion placed by the explorer make the finalizer edits conflict (422) and travel on.
 Search: patch content {none, body fields, status fields, both} x transformations {none, add kopf's
 finalizer, remove it, a NON-idempotent list append, one touching /status} x status subresource {no, yes}
 x foreign writes {spec edit, foreign finalizer, status edit, delete, delete+recreate} whose position
@@ -297,12 +299,49 @@ def scenarios(tier: str) -> tuple[list[C08Scenario], list[C08Scenario]]:
     return base, deep
 
 
+# ---- the framework's own carry-over (processing: memory.remaining_patch), in the closed loop ---------------
+
+def _loop_scenarios() -> list[Scenario]:
+    from kv.checks.c06 import C06Scenario
+
+    class CarryOverScenario(C06Scenario):
+        """C06's closed loop, judged for C08's clause only: after a 422 the finalizer edit is carried forward and
+        RE-EVALUATED against the fresh state - so no finalizer write that follows a conflict may contradict the
+        state it lands on (a decision replayed as taken for the stale state does)."""
+        name = 'c08-loop'
+        prop = 'C08'
+
+        def check(self, env: Env) -> list[Violation]:
+            conflicts = [r for r in env.world.requests if r.status == 422]
+            if not conflicts:
+                return []
+            out = []
+            for v in super().check(env):
+                if v.kind in ('released-early', 'unblocked-while-required', 'blocked-needlessly', 'blocked-while-deleting', 'foreign-finalizers-changed'):
+                    out.append(self.viol(env, 'carried-transformation-not-reevaluated',
+                                         f"after {len(conflicts)} version conflict(s): {v.message}", clause='re-evaluated', what=v.kind))
+            return out
+    globals()['CarryOverScenario'] = CarryOverScenario
+    st = {'persistence__consistency_timeout': 5.0}
+    out: list[Scenario] = []
+    for d1 in (['ok'], ['temp', 'ok']):
+        handlers = [dict(id='c1', on='create', script=['ok']), dict(id='d1', on='delete', script=d1, labels={'on': 'yes'})]
+        out.append(CarryOverScenario(handlers=handlers, settings=st, horizon=50.0, variant='toggle',
+                                     user=[(1.0, 'create', 'a'), (2.0, 'label', 'a', 'on', 'yes'), (5.0, 'label', 'a', 'on', 'no'),
+                                           (8.0, 'label', 'a', 'on', 'yes'), (10.0, 'delete', 'a'), (11.0, 'label', 'a', 'on', 'no')]))
+        out.append(CarryOverScenario(handlers=handlers, settings=st, horizon=50.0, variant='toggle-live',
+                                     user=[(1.0, 'create', 'a'), (2.0, 'label', 'a', 'on', 'yes'), (5.0, 'label', 'a', 'on', 'no'),
+                                           (8.0, 'label', 'a', 'on', 'yes'), (12.0, 'status', 'a', 1)]))
+    return out
+
+
 def run(tier: str, seed: int) -> CheckResult:
     base, deep = scenarios(tier)
+    loop = _loop_scenarios()
     if tier == 'quick':
-        groups = [('one-foreign-write+injected-answers', base, 2, 50.0), ('two-foreign-writes', deep, 2, 40.0)]
+        groups = [('one-foreign-write+injected-answers', base, 2, 50.0), ('two-foreign-writes', deep, 2, 40.0), ('carry-over-in-the-loop', loop, 2, 40.0)]
     else:
-        groups = [('one-foreign-write+injected-answers', base, 3, 600.0), ('two-foreign-writes', deep, 3, 600.0)]
+        groups = [('one-foreign-write+injected-answers', base, 3, 600.0), ('two-foreign-writes', deep, 3, 600.0), ('carry-over-in-the-loop', loop, 3, 600.0)]
     stats, viols, info, nscen = run_groups(groups, seed=seed)
     return CheckResult(
         prop='C08', tier=tier, seed=seed, stats=stats, violations=viols, scenarios=nscen,
@@ -316,6 +355,9 @@ def run(tier: str, seed: int) -> CheckResult:
 
 
 def scenario_from(name: str, params: dict[str, Any]) -> Scenario:
+    if name == 'c08-loop':
+        _loop_scenarios()
+        return globals()['CarryOverScenario'](**params)
     return C08Scenario(**params)
 
 
